@@ -55,6 +55,30 @@ CHECKS = {
         technique="components defined in TLA+ as quotients by reachability; TLC-enumerated families + random graphs replayed (repeated calls); TLC trace monitor",
         text="connected / weak / strong components, component counts, node_connected_component, BFS from every node and bfs_equal_size_partitions for every k are judged against the reachability definitions (partition, right relation, first element, part sizes).",
         note=ALG_NOTE, design="4/C10"),
+    "C07": dict(
+        level="model_checking",
+        technique="TLA+ model of the par_iter/map/collect/combine shape (ParMap) model-checked over all interleavings; bit-for-bit comparison of parallel vs serial answers under installed pools of every size; recorded schedules validated by TLC as ParMap behaviours",
+        text="TLC explores every interleaving of k workers over n items and shows that the sequence of combine steps is always the serial one (and refutes the combine-on-finish variant). On the implementation, each of the five parallel functions is run repeatedly inside ThreadPool::install for pool sizes 2..16 on graphs with more than 20 nodes (tie-heavy, and with non-dyadic weights) and compared bit for bit with the pool-of-1 answer; 8 threads sharing one graph likewise; the hook trace of the executed schedule is replayed through ParMap's actions by the monitor.",
+        note="Exhaustive for the model only: rayon's real schedules are sampled (pool sizes x repetitions), tied to the model by the hook traces. Trusted: bitwise comparison in the harness, TLC.",
+        design="4/C07"),
+    "C14": dict(
+        level="model_checking",
+        technique="TLA+ writer/reader over abstract XML tokens, round trip model-checked on the mutation machine for all 96 GraphSpecs; recorded write-then-read round trips over awkward names / weights judged by a TLC trace monitor on interned tokens",
+        text="Structural round trip Read(Write(g)) = g is checked by TLC on every reachable state; the lexical part (escaping, float printing) is exercised by instantiating the opaque tokens with a table of awkward names and weights and random Unicode / random f64 bit patterns, string and file variants, and comparing token identities in the monitor.",
+        note="The lexical part is sampling over a table and random draws, not a decision for all Unicode x 2^64. Trusted: token interning in the harness, TLC.",
+        design="4/C14, 6"),
+    "C16": dict(
+        level="model_checking",
+        technique="TLA+ state machine of the geometric-skipping loops with nondeterministic skips, model-checked (validity, order, reachability lemma, slot counter); seeded runs judged by a TLC monitor holding the structural rules and statistical thresholds; the library's own skip sequences replayed through the model",
+        text="TLC shows for small n that every skip sequence yields valid, strictly increasing pairs and that every later pair can be emitted next (so every subset is reachable), and refutes the rule as pinned. Real runs for n up to 40/300, six probabilities, both kinds and 400/4000 seeds are judged structurally and statistically (mean within p*pairs/(n-1) + 6 sigma; per-pair frequencies for small n); invalid p must give InvalidArgument; complete_graph and karate_club_graph are compared with their definitions.",
+        note="The distributional claim is a statistical test (false-alarm probability < 1e-8 per configuration) with z-scores computed in f64 by the harness; thresholds are held in the specification.",
+        design="4/C16, 6"),
+    "C19": dict(
+        level="model_checking",
+        technique="TLA+ reader contract over an abstract token alphabet; TLC enumerates every token document of bounded length, each is rendered and read in a watchdog child process and judged by a TLC monitor; plus every single-point corruption of well-formed documents",
+        text="All documents of up to 2/3 content units over 59 units x header variants (missing / duplicated / undecodable attributes, non-numeric weights, stray data, unknown elements, mismatched end tags, truncation) must yield Ok or Err, with Err where an element cannot be represented and, for Ok, exactly the node and edge elements under the C01 rules with the declared directedness; every deletion / duplication / truncation / bit flip of generated documents must yield Ok or Err.",
+        note="Bounded document length; renderer from tokens to text is trusted; panics are observed through catch_unwind, aborts and hangs through the child-process watchdog.",
+        design="4/C19"),
     "C15": dict(
         level="model_checking",
         technique="TLC model checking of Subgraph/Reverse/Reweight/Collapse on the mutation machine + TLC trace monitor on derive events from every state of recorded forests",
@@ -94,7 +118,7 @@ def main():
             "guard": "--cfg graphrs_verif",
             "enable": "harness/.cargo/config.toml passes rustflags --cfg graphrs_verif to every crate of the harness build (path dependency on /repo)",
             "baseline_off_cmd": "cd /repo && cargo test --workspace --no-fail-fast --offline",
-            "source_commits": ["6fdc981"],
+            "source_commits": ["6fdc981", "8590283"],
             "add_only": True,
         },
         "engines": [
